@@ -79,6 +79,10 @@ func c05Alphabet(keys []val.Item, conds []namedCond, withRet bool) func(m *model
 					add("Put"+sfx, drv.Op{K: drv.KPut, Item: with(k, "a", val.N("1"), "g", val.S("y")), Cond: c.c, Values: c.values, RetOnFail: ret})
 					add("Upd"+sfx, drv.Op{K: drv.KUpd, Key: k, Upd: rx.U(rx.Set("b", rx.RV(":y"))), Cond: c.c, Values: mergeVals(c.values, map[string]val.V{":y": val.S("y")}), RetOnFail: ret})
 					add("Del"+sfx, drv.Op{K: drv.KDel, Key: k, Cond: c.c, Values: c.values, RetOnFail: ret, AllOld: true})
+					if ret {
+						// the two return options are independent request fields
+						add("Del"+sfx+"[ReturnValues NONE]", drv.Op{K: drv.KDel, Key: k, Cond: c.c, Values: c.values, RetOnFail: true})
+					}
 				}
 			}
 		}
